@@ -13,9 +13,9 @@ from harness import core, tlc
 from props import misc_c35 as pc
 
 QUICK = dict(Forms={"periodic", "interval", "timer"}, Periods={1, 2, 3}, Starts={0, 2}, Firsts={0, 1, 3}, Durs={0, 1, 2},
-             Horizon=8, MaxK=4)
+             Over={0, 1}, Horizon=8, MaxK=4)
 THOROUGH = dict(Forms={"periodic", "interval", "timer"}, Periods={1, 2, 3, 5}, Starts={0, 1, 3}, Firsts={0, 1, 2, 4}, Durs={0, 1, 2},
-                Horizon=11, MaxK=5)
+                Over={0, 1, 3}, Horizon=11, MaxK=5)
 
 
 def variants(scn):
@@ -23,6 +23,12 @@ def variants(scn):
     h = len(json.dumps(scn, sort_keys=True))
     orders = ("before", "after") if scn["stop"]["kind"] == "dispose" else ("after",)
     out = []
+    if scn.get("over"):
+        # some call takes a period or more: real-time targets, the dispose coming from another thread
+        for i, k in enumerate(pc.RT_KINDS):
+            for tie in ((True, False) if scn["stop"]["kind"] == "dispose" else (True,)):
+                out.append((k, dict(tie_first=tie, profile="falsy" if (h + i) % 2 else "plain")))
+        return out
     if scn["form"] == "periodic":
         for i, k in enumerate(pc.VT_KINDS):
             for o in orders:
@@ -32,6 +38,8 @@ def variants(scn):
             for o in orders:
                 for tie in ((True, False) if scn["stop"]["kind"] == "dispose" and k == "newthread" else (True,)):
                     out.append((k, dict(order=o, tie_first=tie, profile="falsy" if (h + i) % 2 else "plain")))
+            if k == "eventloop" and scn["stop"]["kind"] == "dispose":
+                out.append((k, dict(foreign_dispose=True, profile="plain")))
     else:
         for i, k in enumerate(pc.VT_KINDS):
             for o in orders:
@@ -74,6 +82,9 @@ def run(tier: str) -> int:
         "dispose_between_ticks": sum(1 for g in groups if g[0]["stop"]["kind"] == "dispose" and len(g[1]) == 1),
         "action_takes_time": sum(1 for g in groups if any(g[0]["dur"])),
         "runs_to_horizon": sum(1 for g in groups if g[0]["stop"]["kind"] == "none"),
+        "overrun": sum(1 for g in groups if g[0]["over"]),
+        "overrun_dispose_during_call": sum(1 for g in groups if g[0]["over"] and g[0]["stop"]["kind"] == "dispose" and any(
+            t[1] < g[0]["stop"]["at"] < t[1] + g[0]["dur"][t[0] % 2] for t in g[1][0]["ticks"])),
         "timer_first_differs_from_period": sum(1 for g in groups if g[0]["form"] == "timer" and g[0]["first"] != g[0]["p"]),
     }
     ck.note("vacuity", vac)
@@ -104,7 +115,9 @@ def run(tier: str) -> int:
         "explored here (left to the concurrency bundle, which can call props.misc_c35.periodic_expected)",
         "an exception raised by the action surfaces once: out of start()/advance_to() on virtual time, at the CatchScheduler handler, or as the end of the (simulated) thread",
         "after an escaped exception the replayer calls stop() on the virtual-time scheduler before driving on",
-        "period > 0, action duration < period (a call that overruns its period is outside the statement)",
+        "period > 0; overrun scenarios (a call takes one period or more; real-time targets only, dispose from another thread of the "
+        "one-thread harness): instants are not compared, only state threading, at most one call per period, the first call's instant, "
+        "stop after self-dispose/raise and NO CALL STARTING AFTER THE DISPOSE INSTANT",
     ]
     return ck.finish()
 
